@@ -52,7 +52,7 @@ COMPONENTS = {
              "fnmatch", "decimal", "time.strptime", "csv", "codecs", "zipfile", "zlib", "ElementTree", "xlrd"],
     "stub": ["SimFS/SimRaw", "peers", "fault injector"],
 }
-PROBES_REQUIRED = ["target:cid-cell", "target:data-cell", "target:cid-file", "target:data-file", "fault:truncate",
+PROBES_REQUIRED = ["writer-phase", "target:cid-cell", "target:data-cell", "target:cid-file", "target:data-file", "fault:truncate",
                    "fault:bitflip", "fault:undecodable", "fault:open-quote", "fault:short-record", "pair", "fixture:xls",
                    "fixture:ods", "fixture:xlsx", "outcome:interface-error", "outcome:data-error", "outcome:accepted",
                    "main-ran"]
@@ -75,6 +75,13 @@ BASES = {
         "data": [["id", "amount", "color", "kind", "day", "code", "word", "note"],
                  ["1", "1,5", "red", "k", "31.12.1999", "ab", "aab", "x"],
                  ["2", "", "green", "k", "01.02.2003", "a", "ab", ""]],
+    },
+    "quoted": {
+        # a quote character of its own, everything else left at its default; the data contain the quote character
+        "cid": [["d", "format", "delimited"], ["d", "quote character", "'"], ["d", "item delimiter", ";"],
+                ["f", "id", "", "", "", "Integer", ""], ["f", "surname", "O'Brian", "", "", "Text", ""],
+                ["f", "remark", "", "X", "", "Text", ""]],
+        "data": [["1", "O'Brian", "x;y"], ["2", "Miller", "it's"], ["3", "'", ""]],
     },
     "fixed": {
         "cid": [["d", "format", "fixed"], ["d", "encoding", "ascii"], ["d", "line delimiter", "any"], ["d", "header", "0"],
@@ -107,13 +114,15 @@ FIXTURES = ["valid_customers.xls", "valid_customers.xlsx", "valid_customers.ods"
 
 
 def _spec_for(base_name):
-    fmt = base_name
+    fmt = "delimited" if base_name == "quoted" else base_name
     return {"format": fmt, "line_delimiter": {"delimited": "lf", "fixed": "any"}.get(fmt, "lf"), "fields": []}
 
 
 def _store_data(fs, base_name, table, path, eol="\n"):
     if base_name == "delimited":
         fs.store(path, lib.render_delimited(table, ";", '"', "\n").encode("utf-8", "replace"))
+    elif base_name == "quoted":
+        fs.store(path, lib.render_delimited(table, ";", "'", "\n").encode("utf-8", "replace"))
     elif base_name == "fixed":
         widths = [1, 3, 6, 5, 10, 4]
         text = "".join("".join(cell[:width].ljust(width) for cell, width in zip(row, widths)) + eol for row in table)
@@ -126,7 +135,7 @@ def _store_data(fs, base_name, table, path, eol="\n"):
 
 
 def _data_path(base_name):
-    return {"delimited": "data.csv", "fixed": "data.txt", "excel": "data.xlsx", "ods": "data.ods"}[base_name]
+    return {"delimited": "data.csv", "quoted": "data.csv", "fixed": "data.txt", "excel": "data.xlsx", "ods": "data.ods"}[base_name]
 
 
 def _xml_safe(text):
@@ -400,6 +409,17 @@ def execute(scenario):
 
                     judge("rows-" + mode, *lib.call(read))
                 judge("validate", *lib.call(validio.validate, cid, data_path))
+                if cid.data_format.format in ("delimited", "fixed"):
+                    # the same rows offered to a validated Writer, one by one and as one batch
+                    writable = [row for row in data_rows if len(row) == len(cid.field_formats)]
+                    status, writer = lib.call(validio.Writer, cid, "out.txt")
+                    judge("writer-open", status, writer)
+                    if status == "ok":
+                        for row in writable:
+                            judge("write-row", *lib.call(writer.write_row, row))
+                        judge("write-rows", *lib.call(writer.write_rows, writable))
+                        judge("writer-close", *lib.call(writer.close))
+                        result.probe("writer-phase")
                 if not leaks and all(event[3] == "ok" for event in history.events if event[2].startswith(("rows", "validate"))):
                     result.probe("outcome:accepted")
             if cid_path is not None:
